@@ -168,6 +168,25 @@ pub fn unit_text_model(m: &crate::tool::Mirror, pluralize: bool) -> Option<Strin
     Some(out)
 }
 
+/// Two renderings of a unit agree when they name the same factors (prefix, name, power, plural form) on the same
+/// side of the bar.  The order of the factors and the character that separates them are the library's choice
+/// (the properties do not fix them), so the comparison is by the multiset of factors per side.
+fn same_unit_text(a: &str, b: &str) -> bool {
+    fn sides(t: &str) -> (Vec<String>, Vec<String>) {
+        let (n, d) = match t.split_once('/') {
+            Some((n, d)) => (n, d),
+            None => (t, ""),
+        };
+        let split = |x: &str| {
+            let mut v: Vec<String> = x.split(|c| c == '⋅' || c == '·' || c == '*' || c == ' ').filter(|f| !f.is_empty()).map(|f| f.to_string()).collect();
+            v.sort();
+            v
+        };
+        (split(n), split(d))
+    }
+    sides(a) == sides(b)
+}
+
 /// Expected stdout, built from library results with the harness's own printing.
 fn expected_stdout(db: &Db, query: &str, exact: bool) -> Result<(String, Vec<&'static str>, bool), String> {
     guarded(query, || {
@@ -231,7 +250,7 @@ fn expected_stdout(db: &Db, query: &str, exact: bool) -> Result<(String, Vec<&'s
                     // the unit text itself, against the harness's own rendering
                     if let Some(model) = unit_text_model(&m, !one) {
                         classes.push("unit-text-modelled");
-                        if model != unit {
+                        if !same_unit_text(&model, &unit) {
                             unit_mismatch = Some((unit.clone(), model));
                         }
                     }
